@@ -106,6 +106,9 @@ def run(chk):
     rwexits.run_bitmask(chk)
     rwexits.run_gather_mask(chk)
 
+    from lib import bytemaskkind, ersae
+    bytemaskkind.run(chk)
+    ersae.run(chk)
     return chk.finish(
         level="other",
         explanation=("Table/database agreement clauses: the RW, flag, feature and rm tables regenerate byte-identically from db/ with the "
